@@ -350,6 +350,9 @@ def run(ctx: Ctx):
     ca.check_part(ctx, 150 if not ctx.thorough else 2000, "C05")
     ctx.sample({"case": cases[0], "test": obs[0].get("source"), "after": obs[0].get("after")})
     ctx.sample({"case": cases[1], "observation": {k: obs[1].get(k) for k in ("results", "missing", "incorrect", "reported", "value")}})
+    # lists / tuples / dict displays / constructor calls nested in each other: a run without fix keeps the value (update is value preserving) vs Model/Nest.v
+    from .. import nestassign as na
+    na.check_part(ctx, 300 if not ctx.thorough else 4000, "C05", unm_choices=(0, 0, 0, 0.2))
 
 
 def classify(case, obs):
@@ -360,6 +363,9 @@ def classify(case, obs):
 
 
 def replay(ctx: Ctx, data):
+    if isinstance(data.get("case"), dict) and data["case"].get("kind") == "nest":
+        from .. import nestassign as na
+        return na.replay_case(data["case"])
     if isinstance(data.get("case"), dict) and data["case"].get("kind") == "call":
         from .. import callassign as ca
         return ca.replay_case(data["case"])
